@@ -219,4 +219,13 @@ pub mod verif {
     pub use super::template::verif as template;
     pub use super::trojan::verif as trojan;
     pub use super::vmess::verif as vmess;
+
+    /// the tcp / udp services `main` starts for the selected server entry
+    pub async fn transfer_tcp(listener: tokio::net::TcpListener, current: octo_squirrel::config::ServerConfig<SslConfig>) {
+        super::transfer_tcp(listener, current).await
+    }
+
+    pub async fn transfer_udp(socket: tokio::net::UdpSocket, current: octo_squirrel::config::ServerConfig<SslConfig>) {
+        super::transfer_udp(socket, current).await
+    }
 }
